@@ -828,7 +828,7 @@ def check(prop, tier, seed, units, scratch, t0, args):
                 # verdicts (including violations) are still reported
                 undec.append(str(e))
                 jid = f"{tag[0]}:{tag[1]['name']}/{tag[2]['name']}" if tag[0] != "kani" else f"kani:{tag[1]}:<build>"
-                all_obs.append({"id": jid + ":<job>", "harness": "<job>", "ok": False, "undecided": True, "serves": [prop], "kind": "bounded",
+                all_obs.append({"id": jid + ":<job>", "harness": "<job>", "unit": (tag[1]["name"] if tag[0] != "kani" else "?"), "ok": False, "undecided": True, "serves": [prop], "kind": "bounded",
                                 "engine": tag[0], "messages": [str(e)[:1500]], "what": "job could not be built or extracted", "bound": ""})
                 continue
             if tag[0] == "verus":
@@ -1011,11 +1011,12 @@ def write_evidence(prop, tier, seed, obs, infos, wall, note=None, violations=0, 
         for lr in info.get("local_rewrites", []):
             rewrites[f"{key}:local:{lr['where']}:{lr['from'][:40]}"] = {"hits": lr["hits"], "to": lr["to"][:120]}
         for it in info.get("items", []):
-            functions.append(f"{it['file']}:{it['lines'][0]}-{it['lines'][1]} {it['kind']} {it['selector']}")
+            functions.append(f"{it['file']}:{it['lines'][0]}-{it['lines'][1]} {it['kind']} {it['selector']}"
+                             + (f" [dropped: {'; '.join(it['dropped'])}]" if it.get("dropped") else ""))
         cmds.append(info.get("cmd", ""))
     for pkg, info in infos.get("kani", {}).items():
         cmds.append(info.get("cmd", ""))
-    units_used = sorted(set(o["unit"] for o in obs))
+    units_used = sorted(set(o.get("unit", "?") for o in obs))
     for u in load_units():
         if u["name"] in units_used:
             for a in u.get("assumptions", []):
